@@ -145,7 +145,7 @@ void xv_havoc_ghosts(void)
 void h_length(void) { xv_havoc_ghosts(); const XalanDOMChar* s; length(s); }
 void h_consumeWhitespace2(void) { xv_havoc_ghosts(); const XalanDOMChar** p; size_t* l; consumeWhitespace2(p, l); }
 void h_WideStringToLong(void) { xv_havoc_ghosts(); const XalanDOMChar* s; WideStringToLong(s); }
-void h_convertHelper(void) { xv_havoc_ghosts(); const XalanDOMChar* s; bool f; convertHelper(s, f, 0); }
+void h_convertHelper(void) { xv_havoc_ghosts(); const XalanDOMChar* s; bool f; convertHelper(s, XV_BOOL(f), 0); }
 
 /* ---- W: integer fast path, all strings shorter than 10 units, against the numeral's value */
 static bool spec_number(const XalanDOMChar* s, bool* point)
